@@ -91,6 +91,7 @@ type chainCrash struct {
 	victim    *Replica
 	gid       uint64
 	hits      int
+	sawPrune  bool // NodeDB.Prune ran on the victim before the image was taken
 	height    int64
 	img       *crashImage
 	ready     []*crashImage // images taken in the current block, to be resurrected after it
@@ -149,7 +150,7 @@ func (s *Sim) crashTarget(b *BlockOp, proposer *Replica) *Replica {
 func (s *Sim) beginCrash(r *Replica, h int64) {
 	cc := &s.cc
 	cc.active, cc.pending = cc.pending, nil
-	cc.victim, cc.gid, cc.hits, cc.height, cc.img = r, goid(), 0, h, nil
+	cc.victim, cc.gid, cc.hits, cc.height, cc.img, cc.sawPrune = r, goid(), 0, h, nil, false
 	prev := append([]byte{}, r.State.AppHash...)
 	take := func(point string) {
 		if cc.img != nil {
@@ -171,6 +172,9 @@ func (s *Sim) beginCrash(r *Replica, h int64) {
 			return // not the victim's goroutine (the simulation runs on one goroutine)
 		}
 		cc.hits++
+		if cc.img == nil && strings.Contains(name, ".Prune.") {
+			cc.sawPrune = true
+		}
 		if cc.active.Point == "hook" && cc.hits == cc.active.Hit {
 			take(name)
 		}
@@ -230,6 +234,9 @@ func (s *Sim) endCrash(r *Replica, ok bool) {
 	s.St.Inc("probe.chaincrash.backend." + r.Cfg.Backend)
 	if r.Cfg.PruneKeep > 0 {
 		s.St.Inc("probe.chaincrash.victim_prunes")
+	}
+	if cc.sawPrune {
+		s.St.Inc("probe.chaincrash.pruned_block") // versions were pruned in this block before the crash instant
 	}
 	s.St.Event("crash r%d h=%d point=%s", r.Idx, cc.height, cc.img.point)
 	cc.ready = append(cc.ready, cc.img)
